@@ -413,6 +413,16 @@ func linearize(c *JCase, all []*cop, global []JOut, wrecs []*wrec) {
 			default:
 				continue
 			}
+			// a candidate that returned before an earlier commit was even invoked cannot be this commit
+			late := false
+			for q := 1; q <= p; q++ {
+				if byPos[q].start > o.end {
+					late = true
+				}
+			}
+			if late {
+				continue
+			}
 			if best == nil || o.end < best.end {
 				best = o
 			}
